@@ -244,6 +244,16 @@ def main():
         ground(abi["preserved"] - {nm(sp)} <= pres, f"{fam}/abi preserved set", f"{a}: callee-saved registers missing from preserved: {sorted(abi['preserved'] - {nm(sp)} - pres)}")
         ground(abi["trashed"] <= tr, f"{fam}/abi trashed set", f"{a}: caller-saved registers missing from trashed: {sorted(abi['trashed'] - tr)}")
         ground(not (pres & abi["trashed"]) and not (tr & abi["preserved"]), f"{fam}/abi preserved/trashed swapped", f"{a}: preserved∩caller-saved={sorted(pres & abi['trashed'])} trashed∩callee-saved={sorted(tr & abi['preserved'])}")
+        # the query methods agree with the tables (is_preserved / is_trashed are what the analyses call)
+        pk = {json.dumps(s) for s in cc["preserved"]}; tk = {json.dumps(s) for s in cc["trashed"]}
+        for s, isp, ist in cc.get("queries", []):
+            k = json.dumps(s)
+            want_p = True if k in pk else False; want_t = True if (k in tk and k not in pk) else (False if k in pk else None)
+            if k in pk and k in tk:
+                continue  # reported by the overlap check
+            ground(isp is want_p and ist is (k in tk), f"{fam}/is_preserved, is_trashed disagree with the tables",
+                   f"{a}: {s[1]}:{s[2]} preserved-table={k in pk} trashed-table={k in tk} but is_preserved={isp} is_trashed={ist}")
+        ground(len(cc.get("queries", [])) == len(pk | tk) + len(pk & tk), f"{fam}/is_preserved queries missing", f"{a}: {len(cc.get('queries', []))} query rows for {len(pk | tk)} table registers")
         ground(nm(sp) in pres and cc.get("sp_preserved") is True, f"{fam}/stack pointer not preserved", f"{a}: stack pointer {nm(sp)} preserved={nm(sp) in pres}, is_preserved(sp)={cc.get('sp_preserved')}")
     # the ELF loader selects the descriptor named by the header (ground; the all-headers version is C19's Elf::new check)
     from gen import elfgen
